@@ -83,3 +83,18 @@ Example C06_example :
   bits_asc (rook_attackboard (new_rotated (N.lor (bitmask 28) (N.lor (bitmask 44) (bitmask 26)))) 28)
   = [4; 12; 20; 26; 27; 29; 30; 31; 36; 44].
 Proof. vm_compute. reflexivity. Qed.
+
+(** * The derived queries of pkg/eval: "which pieces can capture on this square" (FindCapture) and "which
+    pieces are pinned against this king or queen" (FindPins), Model/Queries.v, against their definition on
+    the mailbox board (Lemmas/QueriesLemmas1-5.v).  The model functions are compared with the Go functions
+    on every run (`captures` / `pins` cases). *)
+From Morlock.Lemmas Require Import QueriesLemmas.
+Check @QStatements.find_capture_spec.
+Check @QStatements.find_capture_exact.
+Check @QStatements.find_capture_squares_ascend.
+Check @QStatements.pawn_reverse.
+Check @QStatements.find_pins_spec.
+Check @QStatements.rook_candidate_one_bit.
+Check @QStatements.bishop_candidate_one_bit.
+Print Assumptions QStatements.find_capture_spec.
+Print Assumptions QStatements.find_pins_spec.
